@@ -16,6 +16,8 @@ struct C19Plan
   int nops[C19_MAXTHREADS];
   C19Op ops[C19_MAXTHREADS][C19_MAXOPS];
   int t0_stamp_ops;   // thread 0 also creates stamps between observer operations
+  unsigned hop_mask;  // bit i: observer operation i is executed by a helper thread that is started and joined for it (creation, notification and
+                      // polling of one pair then happen on different threads, fully ordered)
   int bulk_n, bulk_at, bulk_obs;   // bulk_n > 0: before operation bulk_at, observers 4..4+bulk_n-1 are attached to observable bulk_obs (if alive)
   int fast_forward;   // the process has already handed out 2^32-24 stamps (state injection)
 };
